@@ -404,8 +404,8 @@ func cliConfigs() []Case {
 }
 
 // TestEnumCLI: every CLI configuration of the grid x every header variant x {GET, HEAD, PUT} on
-// well-formed paths, x every path of the grammar with GET and PUT (right header), x every upload
-// body kind. One server process per configuration; the grid is dealt out to the shards.
+// well-formed paths, x every path of the grammar (right header; PUT and GET, in the quick tier
+// PUT for the writable and GET for the read-only servers), x every upload body kind. One server process per configuration; the grid is dealt out to the shards.
 func TestEnumCLI(t *testing.T) {
 	if !cliEnabled() {
 		t.Skip("VERIF_DESYNC_BIN not set")
@@ -438,6 +438,11 @@ func TestEnumCLI(t *testing.T) {
 		}
 		right, rc := rightHeader(c.Auth)
 		for _, mt := range [][2]string{{"GET", readTarget}, {"PUT", writeTarget}} {
+			// quick tier: the path grammar goes with PUT to the writable servers and with GET to the
+			// read-only ones (the library part enumerates both for every configuration)
+			if !hx.Thorough() && (mt[0] == "PUT") != c.Writable {
+				continue
+			}
 			for _, p := range paths(mt[1]) {
 				c.Reqs = append(c.Reqs, Req{Method: mt[0], Path: p.Path, PClass: p.Class, Target: mt[1], Auth: right, HClass: rc, Body: "valid", BodySeed: 77})
 			}
@@ -457,7 +462,7 @@ func TestEnumCLI(t *testing.T) {
 	}
 	hx.AddNote("cli_enumerated_requests", nreq)
 	hx.AddNote("cli_enumerated_server_processes", nsrv)
-	hx.Exhaustive("CLI: every configuration (chunk-server|index-server x authorization by flag|environment|both|none x writable x verify-write x -u) x every header variant x {GET, HEAD, PUT} + every path of the grammar with GET and PUT + every upload body kind")
+	hx.Exhaustive("CLI: every configuration (chunk-server|index-server x authorization by flag|environment|both|none x writable x verify-write x -u) x every header variant x {GET, HEAD, PUT} + every path of the grammar (quick: PUT when writable, GET when read-only; thorough: both) + every upload body kind")
 }
 
 // ---------------------------------------------------------------- self-test of the CLI part
